@@ -13,6 +13,7 @@ import (
 	"fmt"
 	"io"
 	"net"
+	"strings"
 	"sync"
 	"testing"
 	"time"
@@ -29,17 +30,30 @@ import (
 var c13Scenarios = []string{"plain", "retry", "vn", "longchain", "resume", "0rtt-accept", "0rtt-reject",
 	"0rtt-retry-accept", // resumption with 0-RTT against a server that validates the address with a Retry: the early data leaves before the Retry arrives
 	"0rtt-retry-reject", // the same, and the server's configuration changed: Retry first, then 0-RTT is rejected
+	// large early writes (c13BigPayload bytes: more than the pacer's burst and the initial congestion
+	// window let out before the server's answer arrives, so the stream still has unsent data queued
+	// when 0-RTT is accepted / rejected)
+	"0rtt-accept-big",
+	"0rtt-reject-big",
+	"0rtt-retry-reject-big",
+	// the same large early write against a ticket that remembered a small stream flow control window
+	// (c13FCWindow): the early write is blocked on flow control when the rejection arrives
+	"0rtt-reject-fc",
 }
 
 // scenario traits
 func c13UsesRetry(scen string) bool {
-	return scen == "retry" || scen == "0rtt-retry-accept" || scen == "0rtt-retry-reject"
+	return scen == "retry" || strings.HasPrefix(scen, "0rtt-retry-")
 }
 func c13Early(scen string) bool { // DialEarly with a resumable session, stream data written before the handshake completes
-	return scen == "0rtt-accept" || scen == "0rtt-reject" || scen == "0rtt-retry-accept" || scen == "0rtt-retry-reject"
+	return strings.HasPrefix(scen, "0rtt-")
 }
-func c13Rejects0RTT(scen string) bool { return scen == "0rtt-reject" || scen == "0rtt-retry-reject" }
+func c13Rejects0RTT(scen string) bool { return c13Early(scen) && strings.Contains(scen, "-reject") }
 func c13TwoPhase(scen string) bool    { return scen == "resume" || c13Early(scen) }
+func c13BigEarly(scen string) bool { // the early write is larger than what can leave before the server answers
+	return strings.HasSuffix(scen, "-big") || c13FCBlocked(scen)
+}
+func c13FCBlocked(scen string) bool { return strings.HasSuffix(scen, "-fc") }
 
 // c13KindsFor: the client kinds a scenario runs with.
 func c13KindsFor(si int) []string {
@@ -128,8 +142,10 @@ type c13Result struct {
 	Client       string
 	Server       string
 	ZeroRTTSeen  int // times the server application received the 0-RTT payload
+	ZeroRTTPart  int // streams on which the server application received a proper, non-empty prefix of the 0-RTT payload
 	ZeroRTTErr   string
-	Leaked       int // server routing entries left after everything was closed and timeouts passed
+	ResendErr    string // 0-RTT rejected: what went wrong when the application sent its request again after NextConnection
+	Leaked       int    // server routing entries left after everything was closed and timeouts passed
 	ClientLeaked int
 	InjectedAt   time.Duration
 	InjectedAt2  time.Duration
@@ -170,6 +186,66 @@ func c13Processable(b []byte) bool {
 
 const c13Payload = "zero-rtt-payload-0123456789"
 
+const (
+	c13BigPayload = 100 << 10 // bytes of a large early write: > 10 packet pacing burst, > 32 packet initial congestion window, < the default 512 KiB stream window
+	c13FCWindow   = 8 << 10   // stream receive window remembered with the ticket in the -fc scenarios
+)
+
+// c13Payloads: what the client application writes on its first stream before the handshake
+// completes (early) and what it sends, on a stream of the connection returned by
+// NextConnection, after the early write was refused with Err0RTTRejected (resend). The two
+// differ from the first byte on, so that the server application can tell early data apart.
+func c13Payloads(scen string) (early, resend []byte) {
+	early, resend = []byte(c13Payload), []byte("request-after-rejection-0123456789")
+	if c13BigEarly(scen) {
+		pad := func(b []byte) []byte {
+			out := make([]byte, c13BigPayload)
+			n := copy(out, b)
+			for i := n; i < len(out); i++ {
+				out[i] = byte('a' + (i*7+i/251)%26)
+			}
+			return out
+		}
+		early, resend = pad(early), pad(resend)
+	}
+	return
+}
+
+// c13AfterRejection is the application's documented reaction to Err0RTTRejected: obtain the
+// connection with NextConnection, open a stream again (0-RTT rejection reset the stream maps, so
+// the stream IDs of the rejected attempt are handed out again) and send the request on it; the
+// server application echoes it. Returns "" or a description of what did not work.
+func c13AfterRejection(ctx context.Context, conn *quic.Conn, resend []byte) string {
+	nc, err := conn.NextConnection(ctx)
+	if err != nil {
+		return "NextConnection: " + sim.ErrClass(err)
+	}
+	s, err := nc.OpenStreamSync(ctx)
+	if err != nil {
+		return "open stream: " + sim.ErrClass(err)
+	}
+	werr := make(chan error, 1)
+	go func() {
+		_, err := s.Write(resend)
+		if err == nil {
+			err = s.Close()
+		}
+		werr <- err
+	}()
+	// (no deadline: a connection on which nothing is transmitted ends with the idle timeout)
+	echo, err := io.ReadAll(s)
+	if err != nil {
+		return "read echo: " + sim.ErrClass(err)
+	}
+	if !bytes.Equal(echo, resend) {
+		return fmt.Sprintf("echo differs (%d of %d bytes)", len(echo), len(resend))
+	}
+	if err := <-werr; err != nil {
+		return "write: " + sim.ErrClass(err)
+	}
+	return ""
+}
+
 func c13State(c *quic.Conn) string {
 	s := c.ConnectionState()
 	return fmt.Sprintf("v=%x alpn=%s 0rtt=%v resumed=%v", uint32(s.Version), s.TLS.NegotiatedProtocol, s.Used0RTT, s.TLS.DidResume)
@@ -184,6 +260,11 @@ func c13Run(t *testing.T, cfg c13Config) c13Result {
 		ctx, cancel := context.WithTimeout(context.Background(), 3*time.Minute)
 		defer cancel()
 		sconf := &quic.Config{Allow0RTT: c13Early(scen)}
+		if c13FCBlocked(scen) {
+			// the ticket remembers a small stream window: the large early write stops at it
+			sconf.InitialStreamReceiveWindow = c13FCWindow
+		}
+		earlyPayload, resendPayload := c13Payloads(scen)
 		cconf := &quic.Config{}
 		if scen == "vn" {
 			sconf.Versions = []quic.Version{quic.Version2}
@@ -224,9 +305,13 @@ func c13Run(t *testing.T, cfg c13Config) c13Result {
 						go func() {
 							defer swg.Done()
 							b, _ := io.ReadAll(s)
-							if bytes.Equal(b, []byte(c13Payload)) {
+							if bytes.Equal(b, earlyPayload) {
 								mu.Lock()
 								res.ZeroRTTSeen++
+								mu.Unlock()
+							} else if len(b) > 0 && bytes.HasPrefix(earlyPayload, b) {
+								mu.Lock()
+								res.ZeroRTTPart++
 								mu.Unlock()
 							}
 							s.Write(b) // echo
@@ -356,13 +441,22 @@ func c13Run(t *testing.T, cfg c13Config) c13Result {
 			conn, derr = d.Dial(ctx, w.ServerAddr, ctls, cconf)
 		}
 		if derr == nil && early {
-			// 0-RTT data on a stream, before the handshake completes
+			// 0-RTT data on a stream, before the handshake completes. The write runs beside the
+			// handshake: a large one returns only when everything could be queued (the congestion
+			// and flow control windows open with the server's answers), when 0-RTT is rejected or
+			// when the connection ends.
 			s, err := conn.OpenStream()
+			wdone := make(chan error, 1)
 			if err == nil {
-				_, err = s.Write([]byte(c13Payload))
-				if err == nil {
-					err = s.Close()
-				}
+				go func() {
+					_, err := s.Write(earlyPayload)
+					if err == nil {
+						err = s.Close()
+					}
+					wdone <- err
+				}()
+			} else {
+				wdone <- err
 			}
 			select {
 			case <-conn.HandshakeComplete():
@@ -375,17 +469,22 @@ func c13Run(t *testing.T, cfg c13Config) c13Result {
 			// the 0-RTT delivery oracle, not by the Dial deadline)
 			res.DialTook = time.Since(t0)
 			if derr == nil {
+				err = <-wdone
 				if err == nil {
 					var echo []byte
 					echo, err = io.ReadAll(s) // the server echoes once it has the whole payload
-					if err == nil && string(echo) != c13Payload {
-						err = fmt.Errorf("echo of the 0-RTT payload differs: %q", echo)
+					if err == nil && !bytes.Equal(echo, earlyPayload) {
+						err = fmt.Errorf("echo of the 0-RTT payload differs: %d bytes, %.40q", len(echo), echo)
 					}
 				}
 				if err != nil {
 					res.ZeroRTTErr = err.Error()
 					if !errors.Is(err, quic.Err0RTTRejected) {
 						res.ZeroRTTErr = "unexpected: " + res.ZeroRTTErr
+					} else {
+						// the application does what NextConnection documents: the same connection,
+						// the request again on a fresh stream
+						res.ResendErr = c13AfterRejection(ctx, conn, resendPayload)
 					}
 				}
 			}
@@ -433,6 +532,11 @@ func c13Run(t *testing.T, cfg c13Config) c13Result {
 						res.DialErr = "post-handshake-exchange: " + sim.ErrClass(err)
 						res.Completed = false
 					}
+				} else if res.ResendErr != "" {
+					// both sides agree that 0-RTT was rejected, but the connection the client was
+					// handed for carrying on is not usable: not a completed establishment
+					res.DialErr = "post-rejection-exchange: " + res.ResendErr
+					res.Completed = false
 				}
 			}
 		}
@@ -661,6 +765,12 @@ func c13Judge(cfg c13Config, r, base c13Result) *explore.Fail {
 		}
 	}
 	// (corruption of an unauthenticated Version Negotiation packet may legitimately end the attempt)
+	if cfg.Inject == nil && r.ResendErr != "" && len(cfg.Faults) <= 2 && (benign || scen != "vn") {
+		// client and server agreed that 0-RTT was rejected and the handshake completed, but the state of
+		// the rejected attempt was not released: the stream the application opens on the connection
+		// returned by NextConnection does not carry its request to the server
+		return explore.Failf(key("unusable-after-0rtt-rejection"), "%v: the handshake completed with 0-RTT rejected (client stream error %q), but sending the request again after NextConnection failed: %s", cfg, r.ZeroRTTErr, r.ResendErr)
+	}
 	if cfg.Inject == nil && !r.Completed && len(cfg.Faults) <= 2 && (benign || scen != "vn") {
 		return explore.Failf(key("no-convergence:"+r.DialErr), "%v: with %d faults and no attacker the handshake did not complete: %s", cfg, len(cfg.Faults), r.DialErr)
 	}
@@ -671,8 +781,8 @@ func c13Judge(cfg c13Config, r, base c13Result) *explore.Fail {
 			return explore.Failf(key("0rtt-delivery"), "%v: 0-RTT accepted (%s) but the server application saw the payload %d times (stream error %q)", cfg, r.Client, r.ZeroRTTSeen, r.ZeroRTTErr)
 		}
 	case c13Rejects0RTT(scen):
-		if r.ZeroRTTSeen != 0 {
-			return explore.Failf(key("0rtt-delivered-after-rejection"), "%v: 0-RTT was rejected but the server application received the payload %d times", cfg, r.ZeroRTTSeen)
+		if r.ZeroRTTSeen != 0 || r.ZeroRTTPart != 0 {
+			return explore.Failf(key("0rtt-delivered-after-rejection"), "%v: 0-RTT was rejected but the server application received the payload %d times (and a part of it %d times)", cfg, r.ZeroRTTSeen, r.ZeroRTTPart)
 		}
 		if r.Completed && r.ZeroRTTErr != quic.Err0RTTRejected.Error() {
 			return explore.Failf(key("0rtt-rejection-not-reported"), "%v: 0-RTT rejected but the stream reported %q instead of Err0RTTRejected", cfg, r.ZeroRTTErr)
@@ -805,7 +915,7 @@ func TestVerifC13(t *testing.T) {
 					}
 				}
 			}
-			return cfgs, fmt.Sprintf("%d scenarios (no Retry, Retry, version negotiation, long certificate chain, resumption, 0-RTT accepted, 0-RTT rejected, 0-RTT accepted after a Retry, 0-RTT rejected after a Retry; in the 0-RTT scenarios the early stream data is written before the first server packet arrives) x client kinds x every fault map with 1 fault (12 fates, one of them a bit flip in the source connection ID) among the first 6 handshake datagrams of each direction (thorough: also 2 faults from {drop,dup,delay} among the first 5)", len(c13Scenarios))
+			return cfgs, fmt.Sprintf("%d scenarios (no Retry, Retry, version negotiation, long certificate chain, resumption, 0-RTT accepted, 0-RTT rejected, 0-RTT accepted after a Retry, 0-RTT rejected after a Retry, and with a 100 KiB early write - more than the pacing burst and the initial congestion window let out before the server answers - 0-RTT accepted, rejected, rejected after a Retry, and rejected while the write is blocked on an 8 KiB stream flow control window remembered with the ticket; in the 0-RTT scenarios the early stream data is written from the moment DialEarly returns, and after a rejection the application calls NextConnection and sends its request again on a newly opened stream) x client kinds x every fault map with 1 fault (12 fates, one of them a bit flip in the source connection ID) among the first 6 handshake datagrams of each direction (thorough: also 2 faults from {drop,dup,delay} among the first 5)", len(c13Scenarios))
 		}),
 		mkPart("injections", func(e explore.Env) ([]c13Config, string) {
 			var cfgs []c13Config
